@@ -1,5 +1,8 @@
 import Cvss.Model.Obj
+import Cvss.Model.WF
 import Cvss.Spec.Rating
+import Cvss.Spec.Effective
+import Cvss.Spec.Errors
 /-!
 # Driver: score, rating and float operations
 (`F` scores, `R` rating, `U` raw float primitive). Returns `(diff?, violated ids, detail, tag)`.
@@ -27,8 +30,102 @@ def rating (ver : String) (x : Nat) : Option (List Nat × Go.Err) :=
   match ver with
   | "30" => some (GenV30.Rating x) | "31" => some (GenV31.Rating x) | "40" => some (GenV40.Rating x) | _ => none
 
+def unhexL : List Char → List Nat
+  | a :: b :: r => (hv a * 16 + hv b) :: unhexL r
+  | _ => []
+def unhex (s : String) : List Nat := if s == "-" then [] else unhexL s.toList
+
+def o20 (l : List Nat) : O20 := ⟨l.getD 0 0, l.getD 1 0, l.getD 2 0, l.getD 3 0⟩
+def o30 (l : List Nat) : O30 := ⟨l.getD 0 0, l.getD 1 0, l.getD 2 0, l.getD 3 0, l.getD 4 0, l.getD 5 0⟩
+def o31 (l : List Nat) : O31 := ⟨l.getD 0 0, l.getD 1 0, l.getD 2 0, l.getD 3 0, l.getD 4 0, l.getD 5 0⟩
+def o40 (l : List Nat) : O40 := ⟨l.getD 0 0, l.getD 1 0, l.getD 2 0, l.getD 3 0, l.getD 4 0, l.getD 5 0, l.getD 6 0, l.getD 7 0, l.getD 8 0⟩
+
+/-- model scores of an object (bit patterns): v2/v3 `[base, temporal, environmental, impact, exploitability]`, v4 `[score]` -/
+def modelScores (ver : String) (l : List Nat) : List Nat :=
+  match ver with
+  | "20" => let c := o20 l; [c.baseScore, c.temporalScore, c.environmentalScore, c.impact, c.exploitability]
+  | "30" => let c := o30 l; [c.baseScore, c.temporalScore, c.environmentalScore, c.impact, c.exploitability]
+  | "31" => let c := o31 l; [c.baseScore, c.temporalScore, c.environmentalScore, c.impact, c.exploitability]
+  | _ => [(o40 l).score]
+
+def modelGet (ver : String) (l : List Nat) (a : List Nat) : List Nat :=
+  match ver with
+  | "20" => ((o20 l).get a).1 | "30" => ((o30 l).get a).1 | "31" => ((o31 l).get a).1 | _ => ((o40 l).get a).1
+
+def modelSet (ver : String) (l : List Nat) (a v : List Nat) : List Nat × Go.Err :=
+  match ver with
+  | "20" => let r := (o20 l).set a v; (r.1.bytes, r.2) | "30" => let r := (o30 l).set a v; (r.1.bytes, r.2)
+  | "31" => let r := (o31 l).set a v; (r.1.bytes, r.2) | _ => let r := (o40 l).set a v; (r.1.bytes, r.2)
+
+def modelWf (ver : String) (l : List Nat) : Bool :=
+  match ver with
+  | "20" => (o20 l).wf | "30" => (o30 l).wf | "31" => (o31 l).wf | _ => (o40 l).wf
+
+def poison : Nat := 0x7FF8DEAD00000000
+def scoresS (xs : List Nat) : String := if xs.contains poison then "panic" else " ".intercalate (xs.map hexN)
+
+def verOf (ver : String) : Spec.Version :=
+  match ver with | "20" => .v20 | "30" => .v30 | "31" => .v31 | _ => .v40
+
+def rankOf (ver : String) : List Nat → List Nat → Option Nat :=
+  match ver with | "20" => Spec.V2.rank | "40" => Spec.V4.rank | _ => Spec.V3.rank
+
+/-- which score indices property C12 speaks about, per version -/
+def monoIdx (ver : String) : List Nat :=
+  match ver with | "20" => [0, 1] | "30" => [0, 1] | "31" => [0, 1, 2] | _ => [0]
+
+/-- `M ver obj abv v1 v2 | scores(abv:=v1) / scores(abv:=v2)`: C12 — if `v2` is at least as severe as `v1`
+    (Spec order, in the context of `obj`) no score may decrease -/
+def judgeMono (ver : String) (c a v1 v2 : List Nat) (impl : String) : Option String × List String × String :=
+  let r1 := modelSet ver c a v1
+  let r2 := modelSet ver c a v2
+  if r1.2 ≠ Go.errNil ∨ r2.2 ≠ Go.errNil then ((if impl = "seterr" then none else some "seterr"), [], "") else
+  let m := scoresS (modelScores ver r1.1) ++ " / " ++ scoresS (modelScores ver r2.1)
+  let diff := if m = impl then none else some m
+  let val := fun x => modelGet ver c x
+  let ms := (verOf ver).metrics
+  if !(modelWf ver c) || !(Spec.atLeastAsSevere ms (rankOf ver) val a v1 v2) then (diff, [], "") else
+  match impl.splitOn " / " with
+  | [s1, s2] =>
+    let x1 := (s1.splitOn " ").map parseHexN
+    let x2 := (s2.splitOn " ").map parseHexN
+    let bad := (monoIdx ver).filter fun i => !(F64.le (x1.getD i 0) (x2.getD i 0))
+    (diff, (if bad.isEmpty then [] else ["C12"]), (if bad.isEmpty then "" else s!"score index {bad} decreases"))
+  | _ => (diff, [], "")
+
+/-- `K ver obj1 obj2 | scores1 / scores2 gets1 gets2`: C10 — equal effective keys ⇒ equal scores -/
+def judgeEff (ver : String) (c1 c2 : List Nat) (impl : String) : Option String × List String × String :=
+  let v1 := fun x => modelGet ver c1 x
+  let v2 := fun x => modelGet ver c2 x
+  match impl.splitOn " / " with
+  | [s1, rest] =>
+    let x1 := (s1.splitOn " ").map parseHexN
+    let f2 := rest.splitOn " "
+    let x2 := (f2.take x1.length).map parseHexN
+    let m := scoresS (modelScores ver c1) ++ " / " ++ scoresS (modelScores ver c2)
+    let implScores := s1 ++ " / " ++ " ".intercalate (f2.take x1.length)
+    let diff := if m = implScores then none else some m
+    if !(modelWf ver c1) || !(modelWf ver c2) then (diff, [], "") else
+    let eqAt (i : Nat) := x1.getD i 0 == x2.getD i 0
+    let bad : List String :=
+      match ver with
+      | "40" => if Spec.V4.scoreKey v1 == Spec.V4.scoreKey v2 && !eqAt 0 then ["score"] else []
+      | "20" => []
+      | _ =>
+        (if Spec.V3.baseKey v1 == Spec.V3.baseKey v2 && !eqAt 0 then ["base"] else []) ++
+        (if Spec.V3.temporalKey v1 == Spec.V3.temporalKey v2 && !eqAt 1 then ["temporal"] else []) ++
+        (if Spec.V3.envKey v1 == Spec.V3.envKey v2 && !eqAt 2 then ["environmental"] else [])
+    (diff, (if bad.isEmpty then [] else ["C10"]), (if bad.isEmpty then "" else s!"same effective values, different {bad}"))
+  | _ => (some "BAD-IMPL-LINE", [], "")
+
 def judgeScoreOp (op : List String) (impl : String) : Option (Option String × List String × String × String) :=
   match op with
+  | ["M", ver, c, a, v1, v2] =>
+    let r := judgeMono ver (unhex c) (unhex a) (unhex v1) (unhex v2) impl
+    some (r.1, r.2.1, r.2.2, "M" ++ ver)
+  | ["K", ver, c1, c2] =>
+    let r := judgeEff ver (unhex c1) (unhex c2) impl
+    some (r.1, r.2.1, r.2.2, "K" ++ ver)
   | ["U", name, x, y] =>
     match floatOp name (parseHexN x) (parseHexN y) with
     | some r =>
